@@ -197,6 +197,58 @@ def call_load(text):
     return _load()
 
 
+# files whose bytes are not text in the encoding the loader reads with: such a file is rejected, or every loaded name and
+# part, encoded again, occurs in the file (nothing is loaded under a name / body the file does not contain)
+BAD_BYTES = [b"\xe9", b"\xa0", b"\xff", b"\xc3", b"\xed\xa0\x80", b"\xc3\xa9"]  # the last one is well-formed UTF-8
+BYTE_LINES = [
+    ("name", b"insn(J2_jump%s, {JUMP(riV);})\n"), ("body", b"insn(A2_tfr, { RdV=RsV%s1;})\n"), ("literal", b'insn(A2_w, { w("a%sb"); RdV=RsV;})\n'),
+    ("before-insn", b"%sinsn(A2_sub, { RdV=RtV-RsV;})\n"), ("between-markers", b"insn(J4_c, {__COMPOUND_PART1__{ P0 = 0xff;%s }__COMPOUND_PART1__ if (P0_NEW) { JUMP(riV); }})\n"),
+    ("after-marker", b"insn(J4_d, {__COMPOUND_PART1__{ P0 = 0xff; }__COMPOUND_PART1__ %sJUMP(riV);})\n"), ("directive", b'#line 7 "a%sb.h"\ninsn(A2_x, {RdV=RsV;})\n'),
+]
+
+
+def call_load_bytes(raw):
+    with open(scratch_file(), "wb") as f:
+        f.write(raw)
+    return _load()
+
+
+def check_bytes(raw):
+    """-> None or a string"""
+    import locale
+
+    enc = locale.getpreferredencoding(False)
+    out = call_load_bytes(raw)
+    if out[0] == "raise":
+        return None
+    try:
+        text = raw.decode(enc)
+    except UnicodeDecodeError:
+        text = None
+    for name, parts in out[1].items():
+        for piece in [name] + [p for p in parts if isinstance(p, str)]:
+            try:
+                b = piece.encode(enc, errors="surrogateescape")
+            except UnicodeEncodeError:
+                return "entry %r holds text that the file's encoding (%s) cannot represent" % (name, enc)
+            inner = b.strip()
+            if inner.startswith(b"{") and inner.endswith(b"}"):
+                inner = inner[1:-1].strip()
+            if inner and inner not in raw:
+                return "entry %r: %r does not occur in the file (bytes %r)%s" % (name, piece, raw[:120], "" if text is not None else "; the file is not valid %s and was loaded without an error" % enc)
+    if text is not None:
+        v = R.triage(R.load_conforms, text, out)
+        if v is not None:
+            return v[0]
+    return None
+
+
+def byte_cases():
+    for bn, bad in enumerate(BAD_BYTES):
+        for ln, tmpl in BYTE_LINES:
+            yield {"kind": "bytes", "bad": bn, "line": ln}, HDR.encode() + FIRST.encode() + tmpl % bad + LAST.encode()
+
+
 def file_for(line):
     """The generated line between two ordinary lines (last when it has no line end)."""
     if line.endswith("\n"):
@@ -289,6 +341,13 @@ def eval_case(case):
     if kind == "load":
         scratch_on()
         return check_load(case["text"])
+    if kind == "bytes":
+        scratch_on()
+        for c, raw in byte_cases():
+            if c["bad"] == case["bad"] and c["line"] == case["line"]:
+                v = check_bytes(raw)
+                return None if v is None else (v, None)
+        return None
     if kind == "reload":
         v = check_reload((case["first"], case["second"]))
         return None if v is None else (v[2], None)
@@ -633,6 +692,15 @@ def run(ctx):
             if v is not None:
                 ctx.report({"kind": "reload", "first": a, "second": b, "files": [RELOAD_FILES[a], RELOAD_FILES[b]], "why": v[2]}, None, what="reload: %s" % v[2])
         total["reload_pairs"] = len(pairs)
+        # ---- files that are not text in the loader's encoding
+        scratch_on()
+        nb = loaded = 0
+        for c, raw in byte_cases():
+            nb += 1
+            v = check_bytes(raw)
+            if v is not None:
+                ctx.report(dict(c, raw=repr(raw), why=v), None, what="bytes: %s" % v)
+        total["byte_level_files"] = nb
 
         # ---- L
         names = R.NAMES
